@@ -83,6 +83,7 @@ class PhaseMonitor(Monitor):
         self.fp = None
         self.bound = None
         self.pull_seen = False
+        self.dealt = False
 
     def on_op(self, world, st, op):
         code = OPCODE.get(type(op).__name__)
@@ -94,6 +95,10 @@ class PhaseMonitor(Monitor):
             raise Violation('C07.order', f'operation class {cls} ({op!r}) directly follows {self.prev}: '
                             f'not in the documented phase order; log so far {opseq(st)}')
         self.prev = cls
+        if cls == 'DEAL':
+            self.dealt = True
+        elif cls in ('ANTE', 'BLIND') and self.dealt:
+            raise Violation('C07.order', f'{op!r}: a forced bet is posted after cards have been dealt; log so far {opseq(st)}')
         if self.bound is None:
             self.bound = op_bound(self.cfg, st)
         if self.count > self.bound:
